@@ -43,9 +43,12 @@ pub fn run_scenario(sc: &J, out: &mut Vec<J>) {
     let bl = ju(csdspec, "bl", 9) as u32;
     let csd = mkcsd(ver, c_size, mult, bl);
     // capacity per the SD specification for the register's own structure version
-    let cap_blocks: u64 = if ver == 0 { ((c_size as u64 + 1) << (mult + 2 + bl)) / 512 } else { (c_size as u64 + 1) * 1024 };
-    // a register whose fields make no sense as a capacity (or one beyond 2^32 - 1 blocks): the card answers with it all the
-    // same; only "the call returns" is judged, and the simulated card gets a small memory
+    let cap_bytes: u64 = if ver == 0 { (c_size as u64 + 1) << (mult + 2 + bl) } else { (c_size as u64 + 1) * 512 * 1024 };
+    let (cap_real, cap_rem) = (cap_bytes / 512, cap_bytes % 512);
+    let cap_blocks: u64 = cap_real;
+    // a register whose fields make no sense for a real card (or a capacity beyond 2^32 - 1 blocks): the card answers with it all
+    // the same; the reported capacity is still judged (in bytes exactly, in blocks up to the largest count that fits), and
+    // the simulated card gets a small memory
     let weird = csdspec.get("weird").and_then(|x| x.as_bool()).unwrap_or(false);
     let cap_blocks: u64 = if weird { 1000 } else { cap_blocks };
     let nblocks = cap_blocks.min(u32::MAX as u64) as u32;
@@ -72,7 +75,7 @@ pub fn run_scenario(sc: &J, out: &mut Vec<J>) {
     let opts = AcquireOpts { use_crc: crc, acquire_retries: ju(sc, "retries", 50) as u32 };
     let sd = SdCard::new_with_options(SimSpi(card.clone()), SimDelay(delays.clone()), opts);
     out.push(json!({"ev": "Reset", "id": sc["id"], "kind": sc["kind"], "crc": crc, "csd": {"ver": ver, "c_size": c_size, "mult": mult, "bl": bl}, "weird": weird,
-        "cap": [cap_blocks >> 16, cap_blocks & 0xFFFF], "nblocks": nblocks, "acmd41": card.borrow().acmd41_need,
+        "cap": [cap_real >> 16, cap_real & 0xFFFF], "caprem": cap_rem, "nblocks": nblocks, "acmd41": card.borrow().acmd41_need,
         "budget": [card.borrow().budget >> 16, card.borrow().budget & 0xFFFF]}));
     let seed = ju(sc, "seed", 1);
     let mut wr_counter = 0u64;
